@@ -20,8 +20,9 @@ const K_REQ: u32 = 20;
 const K_RESP: u32 = 21;
 const K_REG: u32 = 22;
 
-pub const SK_CODECS: [Codec; 8] = Codec::ALL;
-pub const STD_CODECS: [Codec; 6] = [Codec::Bytes, Codec::BytesVec, Codec::BytesRefVec, Codec::BytesBox, Codec::Bare, Codec::Json];
+/// the eight codecs of a secret key + the two further serde_json front ends (reader, parsed document)
+pub const SK_CODECS: [Codec; 10] = [Codec::Bytes, Codec::BytesVec, Codec::BytesRefVec, Codec::BytesBox, Codec::Bare, Codec::Json, Codec::Be, Codec::Le, Codec::JsonReader, Codec::JsonValue];
+pub const STD_CODECS: [Codec; 8] = [Codec::Bytes, Codec::BytesVec, Codec::BytesRefVec, Codec::BytesBox, Codec::Bare, Codec::Json, Codec::JsonReader, Codec::JsonValue];
 
 /// encode in `c`, decode back — the artefact "travelled" / "was stored" in codec `c`
 pub fn hop(rec: &mut Rec, lib: &dyn Lib, g: Grp, ty: Ty, c: Codec, bytes: &[u8]) -> Result<Vec<u8>, String> {
@@ -57,8 +58,8 @@ impl Scenario for SignSc {
         p.set("scheme", ((index / 2) % 3) as i64);
         p.set("key_class", ((index / 6) % 6) as i64);
         p.set("msg_class", pick_len_class(&mut x, tier == Tier::Thorough) as i64);
-        p.set("sk_codec", x.below(8) as i64);
-        p.set("wire", x.below(6) as i64);
+        p.set("sk_codec", x.below(SK_CODECS.len() as u64) as i64);
+        p.set("wire", x.below(STD_CODECS.len() as u64) as i64);
         p.steps.push(Step::new(class, &[index as i64]));
         // "<class>-lengths": the same procedure, with (group, scheme, composite-boundary length) enumerated
         let lengths = class.ends_with("-lengths");
@@ -69,18 +70,19 @@ impl Scenario for SignSc {
             "grid-keys" => {
                 // every limb-pattern key x every key codec; group and scheme rotate
                 let edge_n = (crate::env::EDGE_SCALARS_G1.len() + crate::env::EDGE_SCALARS_G2.len()) as u64;
-                let i = index % (crate::env::LIMB_KEYS * 8 + edge_n * 16);
-                if i < crate::env::LIMB_KEYS * 8 {
-                    p.set("key_class", (crate::env::LIMB_KEY_BASE + i / 8) as i64);
-                    p.set("sk_codec", (i % 8) as i64);
-                    p.set("g", ((i / 8 + i) % 2) as i64);
+                let nc = SK_CODECS.len() as u64;
+                let i = index % (crate::env::LIMB_KEYS * nc + edge_n * 2 * nc);
+                if i < crate::env::LIMB_KEYS * nc {
+                    p.set("key_class", (crate::env::LIMB_KEY_BASE + i / nc) as i64);
+                    p.set("sk_codec", (i % nc) as i64);
+                    p.set("g", ((i / nc + i) % 2) as i64);
                 } else {
                     // keys whose public key has an extreme leading coordinate word, in both groups, every key codec
                     // (the public key and signature travel in the drawn wire codec and one more)
-                    let j = i - crate::env::LIMB_KEYS * 8;
-                    p.set("key_class", (crate::env::LIMB_KEY_BASE + crate::env::LIMB_KEYS + j / 16) as i64);
-                    p.set("sk_codec", (j % 8) as i64);
-                    p.set("g", ((j / 8) % 2) as i64);
+                    let j = i - crate::env::LIMB_KEYS * nc;
+                    p.set("key_class", (crate::env::LIMB_KEY_BASE + crate::env::LIMB_KEYS + j / (2 * nc)) as i64);
+                    p.set("sk_codec", (j % nc) as i64);
+                    p.set("g", ((j / nc) % 2) as i64);
                 }
                 p.set("scheme", ((i / 16) % 3) as i64);
                 p.set("msg_class", *x.pick(&[1i64, 2, 3, 16, 17]));
@@ -189,8 +191,8 @@ fn run_sign_rt(plan: &Plan, lib: &dyn Lib, rec: &mut Rec) {
     let scheme = plan.get("scheme") as u8;
     let kc = plan.get("key_class") as u64;
     let mut x = Xo::derive(plan.seed, &[0x517]);
-    let sk_codec = SK_CODECS[plan.get("sk_codec") as usize % 8];
-    let wire = STD_CODECS[plan.get("wire") as usize % 6];
+    let sk_codec = SK_CODECS[plan.get("sk_codec") as usize % SK_CODECS.len()];
+    let wire = STD_CODECS[plan.get("wire") as usize % STD_CODECS.len()];
     let (client, signer, verifier) = (0usize, 1usize, 2usize);
     let mut c = Courier::new(plan.seed, 3);
     install_faults(&mut c, &plan.faults);
@@ -277,8 +279,8 @@ fn run_sign_rt(plan: &Plan, lib: &dyn Lib, rec: &mut Rec) {
                         format!("verify scheme={} g={} key_class={} len={} wire={} | honest signature rejected: {:?}", scheme_name(scheme), g.name(), kc, resp.parts[2].len(), wire.name(), v)
                     });
                     // and after one more trip of each component through another codec
-                    let c2 = STD_CODECS[x.below(6) as usize];
-                    let kc2 = SK_CODECS[x.below(8) as usize];
+                    let c2 = STD_CODECS[x.below(STD_CODECS.len() as u64) as usize];
+                    let kc2 = SK_CODECS[x.below(SK_CODECS.len() as u64) as usize];
                     match (hop(rec, lib, g, Ty::SecretKey, kc2, &k), hop(rec, lib, g, Ty::PublicKey, c2, &pk_b), hop(rec, lib, g, Ty::Signature, c2, &sig_b)) {
                         (Ok(k2), Ok(pk2), Ok(sig2)) => {
                             let s2 = rec.call(lib, g, Op::Sign, &[&k2, &[scheme], &resp.parts[2]]);
@@ -808,6 +810,14 @@ fn run_interop(plan: &Plan, lib: &dyn Lib, rec: &mut Rec) {
     let va: Vec<&[u8]> = vargs.iter().map(|v| v.as_slice()).collect();
     let out = rec.call(lib, g, Op::AggVerify, &va);
     let exp = b.aggregate_verify(s, &pairs, &agg_ref);
+    // the draft's AggregateVerify is one function of the list: also through the scheme trait with another kind of iterator
+    {
+        let kind = [(plan.seed % 5) as u8];
+        let mut ta: Vec<&[u8]> = vec![&kind];
+        ta.extend(va.iter().copied());
+        let tout = rec.call(lib, g, Op::AggVerifyTrait, &ta);
+        rec.expect("C03", "aggregate-verify-equals-reference", tout.is_ok() == exp, || format!("aggregate-verify via-trait-iterator-kind-{} scheme={} n={} repeated_adjacent={} g={} | the scheme trait says {}, the draft's AggregateVerify says {}", kind[0], scheme_name(s as u8), n, repeat_adjacent, g.name(), tout.kind(), exp));
+    }
     rec.expect("C03", "aggregate-verify-equals-reference", out.is_ok() == exp, || format!("aggregate-verify scheme={} n={} repeated_adjacent={} g={} | library says {}, the draft's AggregateVerify says {}", scheme_name(s as u8), n, repeat_adjacent, g.name(), out.kind(), exp));
     // same-message accumulation (the draft's Aggregate of signatures / sum of keys), with a signer listed twice
     let ms = *x.pick(&[Scheme::Basic, Scheme::Pop]);
